@@ -24,6 +24,9 @@
 (***************************************************************************)
 EXTENDS LogUnits
 
+CONSTANT ConvDevs     \* which named deviations of the dispatch the code still has (tags of the OPEN C04 findings):
+                      \* "nounit_to_rad_power", "offset_dim_mismatch", "log_dim_mismatch"; a repaired tree has none
+
 OffsetNames == {"Cel", "degF"}                     \* documented temperature units with an offset
 TempNames   == {"K", "Cel", "degF", "degR"}
 Names(A) == {IdName(A[i][1]) : i \in 1..Len(A)}
@@ -42,8 +45,9 @@ Fold(A) == IF DimSum(A) = DZero THEN SelectSeq(A, LAMBDA x : IsDimless(x[1])) EL
 
 Rule(A, B) ==
   LET da == DimSum(A)  db == DimSum(B)
-      off == (Names(A) \cup Names(B)) \cap OffsetNames # {}
-      lg  == (Names(A) \cup Names(B)) \cap LogNames # {}
+      \* the source is a quantity: what its constructor folded away is no longer a unit of it
+      off == (Names(Fold(A)) \cup Names(B)) \cap OffsetNames # {}
+      lg  == (Names(Fold(A)) \cup Names(B)) \cap LogNames # {}
   IN IF ~off /\ ~lg THEN
           (IF da = db THEN "linear"
            ELSE IF da = DNeg(db) THEN "inverse"
@@ -92,16 +96,19 @@ MRule(A, B) ==
       da == DimSum(A)  db == DimSum(B)
   IN IF all \cap MTempProcess # {} THEN
           (IF Len(u1) # 1 \/ Len(u2) # 1 THEN "reject"                       \* Only simple units ...
+           ELSE IF "offset_dim_mismatch" \notin ConvDevs /\ da # db THEN "reject"   \* repaired: dimensions are compared
            ELSE IF (u1[1] \o "_" \o u2[1]) \in MTempMethods THEN "temp:" \o u1[1] \o "_" \o u2[1]
            ELSE "reject")                                                      \* Conversion method is not implemented
      ELSE IF all \cap MLogProcess # {} THEN
           (IF Len(u1) \notin {1, 2} \/ Len(u2) \notin {1, 2} THEN "reject"
+           ELSE IF "log_dim_mismatch" \notin ConvDevs /\ da # db THEN "reject"      \* repaired: dimensions are compared
            ELSE IF MEntry(u1[1], u2[1]).fn # "" THEN "log:" \o u1[1] \o "_" \o u2[1]
            ELSE IF (u1[1] \o "_" \o u2[1]) \in MLogMethods THEN "logm:" \o u1[1] \o "_" \o u2[1]
            ELSE "reject")
      ELSE IF da = db THEN "linear"
      ELSE IF DNeg(da) = db THEN "inverse"
-     ELSE IF Fold(A) = <<>> /\ u2 = <<"rad">> THEN "linear"
+     ELSE IF Fold(A) = <<>> /\ u2 = <<"rad">> /\ ("nounit_to_rad_power" \in ConvDevs \/ db = [i \in 1..8 |-> IF i = 8 THEN QOne ELSE QZero])
+          THEN "linear"                                                        \* repaired: the dimension must be rad^1
      ELSE "reject"                                                             \* Unsupported conversion between units
 MAccepts(m) == m # "reject"
 
@@ -110,8 +117,8 @@ ConvTags(A, B) ==
   LET da == DimSum(A)  db == DimSum(B)
       mism == da # db /\ da # DNeg(db) IN
   (IF Fold(A) = <<>> /\ B # <<>> /\ Names(B) = {"rad"} /\ ~IsRad1(B) THEN {"nounit_to_rad_power"} ELSE {})
-  \cup (IF mism /\ (Names(A) \cup Names(B)) \cap OffsetNames # {} THEN {"offset_dim_mismatch"} ELSE {})
-  \cup (IF mism /\ (Names(A) \cup Names(B)) \cap LogNames # {} THEN {"log_dim_mismatch"} ELSE {})
+  \cup (IF mism /\ (Names(Fold(A)) \cup Names(B)) \cap OffsetNames # {} THEN {"offset_dim_mismatch"} ELSE {})
+  \cup (IF mism /\ (Names(Fold(A)) \cup Names(B)) \cap LogNames # {} THEN {"log_dim_mismatch"} ELSE {})
   \cup (IF A = <<>> THEN {"nounit"} ELSE {})
 
 \* does the machine's choice agree with the ideal's rule?
